@@ -1,9 +1,11 @@
 package lib
 
 import (
+	"fmt"
 	"net"
 	"regexp"
 	"strconv"
+	"strings"
 
 	"github.com/refraction-networking/conjure/pkg/station/geoip"
 	"github.com/refraction-networking/conjure/pkg/station/liveness"
@@ -51,14 +53,17 @@ type RegConfig struct {
 }
 
 // ParseBlocklists converts string arrays of blocklisted domains, addresses and
-// subnets and parses them into a usable format
-func (c *RegConfig) ParseBlocklists() {
+// subnets and parses them into a usable format. White space around a subnet is
+// ignored; an entry that cannot be parsed is an error, so that a typo cannot
+// silently disable part of a blocklist or allowlist.
+func (c *RegConfig) ParseBlocklists() error {
 	c.covertBlocklistSubnets = []*net.IPNet{}
 	for _, subnet := range c.CovertBlocklistSubnets {
-		_, ipNet, err := net.ParseCIDR(subnet)
-		if err == nil {
-			c.covertBlocklistSubnets = append(c.covertBlocklistSubnets, ipNet)
+		_, ipNet, err := net.ParseCIDR(strings.TrimSpace(subnet))
+		if err != nil {
+			return fmt.Errorf("covert_blocklist_subnets: bad entry %q: %w", subnet, err)
 		}
+		c.covertBlocklistSubnets = append(c.covertBlocklistSubnets, ipNet)
 	}
 
 	c.covertBlocklistDomains = []*regexp.Regexp{}
@@ -71,18 +76,20 @@ func (c *RegConfig) ParseBlocklists() {
 
 	c.phantomBlocklist = []*net.IPNet{}
 	for _, subnet := range c.PhantomBlocklist {
-		_, ipNet, err := net.ParseCIDR(subnet)
-		if err == nil {
-			c.phantomBlocklist = append(c.phantomBlocklist, ipNet)
+		_, ipNet, err := net.ParseCIDR(strings.TrimSpace(subnet))
+		if err != nil {
+			return fmt.Errorf("phantom_blocklist: bad entry %q: %w", subnet, err)
 		}
+		c.phantomBlocklist = append(c.phantomBlocklist, ipNet)
 	}
 
 	c.covertAllowlistSubnets = []*net.IPNet{}
 	for _, subnet := range c.CovertAllowlistSubnets {
-		_, ipNet, err := net.ParseCIDR(subnet)
-		if err == nil {
-			c.covertAllowlistSubnets = append(c.covertAllowlistSubnets, ipNet)
+		_, ipNet, err := net.ParseCIDR(strings.TrimSpace(subnet))
+		if err != nil {
+			return fmt.Errorf("covert_allowlist_subnets: bad entry %q: %w", subnet, err)
 		}
+		c.covertAllowlistSubnets = append(c.covertAllowlistSubnets, ipNet)
 	}
 	if len(c.covertAllowlistSubnets) > 0 {
 		c.enableCovertAllowlist = true
@@ -92,7 +99,7 @@ func (c *RegConfig) ParseBlocklists() {
 		// Add all public local addresses to the blocklist.
 		ifaces, err := net.Interfaces()
 		if err != nil {
-			return
+			return nil
 		}
 
 		for _, i := range ifaces {
@@ -115,6 +122,8 @@ func (c *RegConfig) ParseBlocklists() {
 			}
 		}
 	}
+
+	return nil
 }
 
 // ParseOrResolveBlocklisted attempts to return an IP:port string whenever
